@@ -425,9 +425,19 @@ with_client!(c23_t_nts_v4_c, 5, |c| {
 });
 with_client!(c23_t_nts_v4_mac_c, 5, |c| {
     let mac = nts4!(c, 16, 20, 4);
-    let empty = nts4!(c, 16, 16, 0);
     kani::cover!(mac == ACC, "with trailing MAC");
-    kani::cover!(empty == ACC, "empty plaintext");
+});
+/// Successful decryption of an empty plaintext (ciphertext = tag): the only accepting path whose
+/// symbolic execution fits (a non-empty plaintext lives on the heap: 2.5M SSA steps, out of memory).
+with_client!(c23_t_nts_v4_empty_c, 5, |c| {
+    let empty = nts4!(c, 16, 16, 0);
+    kani::cover!(empty == ACC, "decrypted, empty plaintext: accepted, preceding cookie field authenticated");
+    kani::cover!(empty == DEC, "decryption refused");
+});
+with_client!(c23_t_nts_v5_empty_c, 5, |c| {
+    let empty = nts5!(c, 16, 16);
+    kani::cover!(empty == ACC, "decrypted, empty plaintext");
+    kani::cover!(empty == DEC, "decryption refused");
 });
 with_client!(c23_t_nts_v4_notag_c, 5, |c| {
     let short = nts4!(c, 16, 15, 0);
